@@ -74,6 +74,11 @@ pub fn split_cfg_for(scheme: &str) -> Option<SplitCfg> {
 /// `overlay`: None = every local gets its own cell; Some(levels) = locals of functions at the
 /// same call-tree level share storage exactly as tests/build.rs lays them out.
 pub fn layout(obs: &Obs, overlay: bool) -> Result<Layout, String> {
+    // memory classes of other platforms (7800 display / frequency RAM, RAM chips) are not laid
+    // out by the 2600 builder this layout replicates
+    if let Some(v) = obs.vars.iter().find(|v| v.def == Def::None && matches!(v.mem, Mem::Display | Mem::Frequency | Mem::Ramchip | Mem::Ramplus)) {
+        return Err(format!("memory class of '{}' is not modelled by the 2600 layout", v.name));
+    }
     let mut l = Layout::default();
     l.symbols.insert("cctmp".into(), 0x80);
     l.symbols.insert("__address__".into(), 0);
@@ -83,6 +88,14 @@ pub fn layout(obs: &Obs, overlay: bool) -> Result<Layout, String> {
         if let Def::Value(Val::Int(i)) = &v.def {
             if v.var_const {
                 l.symbols.insert(v.name.clone(), *i as i64);
+            }
+        }
+        // a constant defined as the low / high byte of another symbol's address: the symbol may
+        // live in an assembler file the compiler never sees, so the name is defined (value 0 when
+        // the target is unknown here) and only its use in instructions is checked
+        if let Def::Value(Val::Low(..)) | Def::Value(Val::Hi(..)) = &v.def {
+            if v.var_const {
+                l.symbols.insert(v.name.clone(), 0);
             }
         }
     }
